@@ -652,6 +652,9 @@ func c10r3(p *Prog, r *Reporter) {
 					if nn.Before(ins) {
 						continue
 					}
+					if derefs(ins, v) && !nilPathFeasible(fn, v, guards[1:], ins) {
+						continue // no path on which the result is nil reaches the dereference (branch conditions over nil comparisons enumerated)
+					}
 					if derefs(ins, v) {
 						bad = "dereferenced at " + p.Pos(posOf(ins)) + " without a nil test"
 						break
@@ -798,6 +801,17 @@ func c10r4(p *Prog, r *Reporter) {
 						return ok && o == pr.owner && f == pr.flag && bs == base
 					},
 					InstrGen: func(i2 ssa.Instruction) bool {
+						if site, ok := i2.(ssa.CallInstruction); ok {
+							// a helper that returns normally only when the flag of its argument is true
+							if g := site.Common().StaticCallee(); g != nil && p.isArche(g) {
+								for j, a := range site.Common().Args {
+									if apath(a) == base && assertsFlag(p, g, j, pr.owner, pr.flag) {
+										return true
+									}
+								}
+							}
+							return false
+						}
 						st, ok := i2.(*ssa.Store)
 						if !ok {
 							return false
@@ -963,4 +977,23 @@ func isFmtOrPanicArg(site ssa.CallInstruction) bool {
 		return true
 	}
 	return false
+}
+
+// assertsFlag: g returns normally only if <param j>.<flag> is true (every return is dominated by the flag's true edge;
+// the false edge leads to a panic).
+func assertsFlag(p *Prog, g *ssa.Function, j int, owner, flag string) bool {
+	if g.Blocks == nil || j >= len(g.Params) {
+		return false
+	}
+	base := g.Params[j].Name()
+	mf := &MustFlow{Fn: g, EdgeGen: func(x *ssa.BasicBlock, k int) bool {
+		atom, holds, ok := edgeCond(x, k)
+		if !ok || !holds {
+			return false
+		}
+		o, f, bs, ok := loadedField(atom)
+		return ok && o == owner && f == flag && bs == base
+	}}
+	mf.Run()
+	return mf.AtAllReturns()
 }
